@@ -1,31 +1,2183 @@
 package main
 
 import (
+	"bytes"
 	"fmt"
 	"go/ast"
+	"go/build"
+	"go/importer"
 	"go/token"
+	"go/types"
+	"io"
 	"os"
+	"os/exec"
 	"path/filepath"
 	"sort"
 	"strings"
 )
 
-// Access table (DESIGN.md C05): for the shared state of Batcher, Extractor, ObjectPool and the
-// logger package, every syntactic read/write site with the lock syntactically held there and
-// whether the access goes through sync/atomic.  Lean decides `raceFree` over the table.
+// Access table (DESIGN.md C05, round 2).
+//
+// For every object that more than one goroutine can touch (Batcher, Extractor, ExpressionIgnoreSet,
+// ObjectPool, the logger's package state, the variables RunAggregationLoop shares with its ticker
+// closure) and for the monitor-protected state behind the aggregation loop's mutex (aggregators,
+// terminal writers) the table lists EVERY field (go/types enumerates them, there is no hand-picked
+// list) and every syntactic access with
+//
+//   * the object accessed: "var" = the field variable itself (for a slice: the header, for a pointer:
+//     the pointer), "ref" = what a reference-typed field refers to (backing array, map, pointee,
+//     closure), reached directly (`s.f[i]`), through a local alias (`x := s.f; … x[i]`), or because the
+//     reference leaves the function (returned, sent, stored, passed to a call that may keep it);
+//   * whether it is a write, whether it goes through sync/atomic (or a type that synchronises itself);
+//   * the mutex held AT THE SITE OF THE ACCESS (a flow-sensitive must-hold analysis over the statement
+//     tree: branches are joined by intersection, closures start with nothing held) – for a reference
+//     that escapes the function nothing is held;
+//   * the roles (goroutines of the same function) this access is ordered with by a `go` statement or
+//     by an unbuffered-channel hand-shake that ends the other goroutine.
+//
+// Lean decides `raceFree` over the tables (Props/C05.lean `lockset_ok`).
+//
+// What is NOT seen: unsafe, reflection, cgo, method values (`f := s.M`), goroutines started in packages
+// that are not listed below, aliasing through more than one level (an element of a guarded slice that
+// is itself a pointer), aliasing through function results other than append / conversions, two
+// distinct fields sharing one referent (unless declared as a region), distinct instances of one type
+// (all receivers are taken to be the same object).
+
+// ------------------------------------------------------------------ type loading
+
+type tpkg struct {
+	dir   string
+	path  string
+	pkg   *types.Package
+	info  *types.Info
+	files []*ast.File
+	errs  []string
+}
+
+type typeWorld struct {
+	c      *Ctx
+	imp    types.Importer
+	pkgs   map[string]*tpkg           // by dir
+	funcs  map[string]*funcSrc        // qualified key -> declaration with source
+	failed string
+}
+
+type funcSrc struct {
+	tp *tpkg
+	fd *ast.FuncDecl
+}
+
+var worlds = map[*Ctx]*typeWorld{}
+
+func goEnv() []string {
+	env := os.Environ()
+	return append(env, "GOFLAGS=-mod=mod", "GOPROXY=off", "GOSUMDB=off", "GOTOOLCHAIN=local")
+}
+
+// exportLookup asks the go command for the export data of every dependency of the listed packages
+// (compiled packages come out of the build cache) and returns a lookup function for the gc importer.
+func exportLookup(repo string, dirs []string) (func(path string) (io.ReadCloser, error), error) {
+	args := []string{"list", "-export", "-deps", "-f", "{{.ImportPath}}\t{{.Export}}"}
+	for _, d := range dirs {
+		args = append(args, "./"+d)
+	}
+	cmd := exec.Command("go", args...)
+	cmd.Dir = repo
+	cmd.Env = goEnv()
+	var stderr bytes.Buffer
+	cmd.Stderr = &stderr
+	out, err := cmd.Output()
+	if err != nil {
+		return nil, fmt.Errorf("go list -export: %v: %s", err, stderr.String())
+	}
+	exp := map[string]string{}
+	for _, l := range strings.Split(string(out), "\n") {
+		if p := strings.SplitN(l, "\t", 2); len(p) == 2 && p[1] != "" {
+			exp[p[0]] = p[1]
+		}
+	}
+	return func(path string) (io.ReadCloser, error) {
+		f, ok := exp[path]
+		if !ok {
+			return nil, fmt.Errorf("no export data for %s", path)
+		}
+		return os.Open(f)
+	}, nil
+}
+
+func (c *Ctx) world(dirs []string) *typeWorld {
+	if w, ok := worlds[c]; ok {
+		return w
+	}
+	w := &typeWorld{c: c, pkgs: map[string]*tpkg{}, funcs: map[string]*funcSrc{}}
+	worlds[c] = w
+	lookup, err := exportLookup(c.Repo, dirs)
+	if err == nil {
+		w.imp = importer.ForCompiler(c.fset, "gc", lookup)
+	} else {
+		// fall back to type-checking the dependencies from source (slower, needs no build)
+		os.Setenv("GOFLAGS", "-mod=mod")
+		os.Setenv("GOPROXY", "off")
+		os.Setenv("GOSUMDB", "off")
+		os.Setenv("GOTOOLCHAIN", "local")
+		wd, _ := os.Getwd()
+		os.Chdir(c.Repo)
+		defer os.Chdir(wd)
+		w.imp = importer.ForCompiler(c.fset, "source", nil)
+		w.failed = err.Error()
+	}
+	for _, d := range dirs {
+		w.load(d)
+	}
+	return w
+}
+
+func (w *typeWorld) load(dir string) *tpkg {
+	if tp, ok := w.pkgs[dir]; ok {
+		return tp
+	}
+	c := w.c
+	tp := &tpkg{dir: dir, path: "rare/" + dir}
+	w.pkgs[dir] = tp
+	ents, _ := os.ReadDir(filepath.Join(c.Repo, dir))
+	var names []string
+	for _, e := range ents {
+		n := e.Name()
+		if !strings.HasSuffix(n, ".go") || strings.HasSuffix(n, "_test.go") {
+			continue
+		}
+		if ok, _ := build.Default.MatchFile(filepath.Join(c.Repo, dir), n); ok { // product build: tag `verif` off
+			names = append(names, n)
+		}
+	}
+	sort.Strings(names)
+	for _, n := range names {
+		if f := c.File(filepath.Join(dir, n)); f != nil {
+			tp.files = append(tp.files, f)
+		}
+	}
+	tp.info = &types.Info{
+		Defs:       map[*ast.Ident]types.Object{},
+		Uses:       map[*ast.Ident]types.Object{},
+		Selections: map[*ast.SelectorExpr]*types.Selection{},
+		Types:      map[ast.Expr]types.TypeAndValue{},
+		Scopes:     map[ast.Node]*types.Scope{},
+	}
+	conf := types.Config{Importer: w.imp, Error: func(err error) { tp.errs = append(tp.errs, err.Error()) }}
+	if wd, err := os.Getwd(); err == nil { // the source importer resolves module paths relative to the cwd
+		os.Chdir(c.Repo)
+		defer os.Chdir(wd)
+	}
+	tp.pkg, _ = conf.Check(tp.path, c.fset, tp.files, tp.info)
+	for _, f := range tp.files {
+		for _, d := range f.Decls {
+			if fd, ok := d.(*ast.FuncDecl); ok && fd.Body != nil {
+				if fo, ok := tp.info.Defs[fd.Name].(*types.Func); ok {
+					w.funcs[funcKey(fo)] = &funcSrc{tp, fd}
+				}
+			}
+		}
+	}
+	return tp
+}
+
+func derefT(t types.Type) types.Type {
+	for {
+		p, ok := t.(*types.Pointer)
+		if !ok {
+			return t
+		}
+		t = p.Elem()
+	}
+}
+
+func namedOf(t types.Type) (pkg, name string) {
+	t = derefT(t)
+	if a, ok := t.(*types.Alias); ok {
+		t = types.Unalias(a)
+	}
+	if n, ok := t.(*types.Named); ok {
+		o := n.Obj()
+		if o.Pkg() != nil {
+			return o.Pkg().Path(), o.Name()
+		}
+		return "", o.Name()
+	}
+	return "", ""
+}
+
+// funcKey: "pkgpath.Type.Method" / "pkgpath.Func"
+func funcKey(f *types.Func) string {
+	f = f.Origin()
+	sig, _ := f.Type().(*types.Signature)
+	pp := ""
+	if f.Pkg() != nil {
+		pp = f.Pkg().Path()
+	}
+	if sig != nil && sig.Recv() != nil {
+		_, n := namedOf(sig.Recv().Type())
+		return pp + "." + n + "." + f.Name()
+	}
+	return pp + "." + f.Name()
+}
+
+func shortKey(k string) string {
+	if i := strings.LastIndex(k, "/"); i >= 0 {
+		return k[i+1:]
+	}
+	return k
+}
+
+// kindOf classifies a field type.
+func kindOf(t types.Type) string {
+	if p, n := namedOf(t); p == "sync" {
+		if _, isPtr := t.(*types.Pointer); !isPtr {
+			if n == "Mutex" || n == "RWMutex" {
+				return "mutex"
+			}
+			return "sync"
+		}
+	} else if p == "sync/atomic" {
+		return "atomicval"
+	}
+	switch t.Underlying().(type) {
+	case *types.Slice:
+		return "slice"
+	case *types.Map:
+		return "map"
+	case *types.Pointer:
+		return "pointer"
+	case *types.Chan:
+		return "chan"
+	case *types.Signature:
+		return "func"
+	case *types.Interface:
+		if _, isTP := t.(*types.TypeParam); isTP {
+			return "value"
+		}
+		return "iface"
+	}
+	return "value"
+}
+
+func isRefKind(k string) bool {
+	return k == "slice" || k == "map" || k == "pointer" || k == "func" || k == "iface"
+}
+
+// types whose methods are documented to be safe for concurrent use (they lock internally)
+var selfSync = map[string]bool{"log.Logger": true, "regexp.Regexp": true, "os.File": true}
+
+// stdlib packages none of whose functions keep a reference to an argument after returning
+var nonRetaining = map[string]bool{"strings": true, "bytes": true, "fmt": true, "sort": true, "slices": true, "strconv": true,
+	"unicode": true, "unicode/utf8": true, "math": true, "errors": true, "time": true, "rare/pkg/humanize": true, "maps": true}
+
+// ------------------------------------------------------------------ configuration
 
 type access struct {
-	fn, field          string
-	write, atomic      bool
-	lock               string // "", "W" (Lock) or "R" (RLock)
+	fn, field, region, obj string // obj: "var" | "ref"
+	write, atomic          bool
+	lock, mutex            string // lock: "", "W", "R"
+	esc                    string // "" | return | arg | store | global | send | go | addr | methodvalue
+	how                    string
+	ord                    []string
+	line                   int
+}
+
+type fieldInfo struct {
+	name, kind, region string
+	obj                *types.Var
 }
 
 type accessCfg struct {
-	lean     string   // Lean definition name
-	dir      string   // package directory
-	typ      string   // struct type name ("" = package-level variables)
-	fields   []string // fields / variables of interest
-	mutex    string   // mutex field / variable name
+	lean          string
+	dir           string
+	mode          string   // "struct" | "globals" | "locals" | "monitor"
+	typ           string   // struct names "A|B" ("*" = every struct of the package), or the function (locals)
+	readOnlyCalls []string // calls through a reference-typed field that are another component's read-only contract
+	regions       map[string]string
+	retainOK      []string // callees whose keeping of an argument is what a region declaration models
+}
+
+type src struct {
+	fi  *fieldInfo
+	via string
+}
+
+type lockState map[string]string
+
+func (l lockState) clone() lockState {
+	o := lockState{}
+	for k, v := range l {
+		o[k] = v
+	}
+	return o
+}
+
+func meet(a, b lockState) lockState {
+	o := lockState{}
+	for k, v := range a {
+		if w, ok := b[k]; ok {
+			if v == w {
+				o[k] = v
+			} else {
+				o[k] = "R"
+			}
+		}
+	}
+	return o
+}
+
+type loopFrame struct {
+	label  string
+	isLoop bool
+	exits  []lockState
+}
+
+type closure struct {
+	lit  *ast.FuncLit
+	name string
+	ord  []string
+}
+
+type analyzer struct {
+	w      *typeWorld
+	tp     *tpkg
+	cfg    accessCfg
+	fields []*fieldInfo
+	byObj  map[*types.Var]*fieldInfo
+	alias  map[*types.Var]map[*fieldInfo]string
+	out    []access
+	emitOn bool
+
+	// per flow
+	fn      string
+	locks   lockState
+	frames  []*loopFrame
+	pending []closure
+	nclos   int
+	ord     []string
+	postGo  bool
+	ctor    bool
+
+	calls      map[string]*callInfo
+	spawns     []string
+	assumed    map[string]bool
+	mutMemo    map[string]int
+	nextLabel  string
+	structs    []string
+}
+
+type callInfo struct{ locked, unlocked int }
+
+func (a *analyzer) pos(n ast.Node) int { return a.w.c.fset.Position(n.Pos()).Line }
+
+func (a *analyzer) emit(fi *fieldInfo, obj string, write, atomic bool, how string, n ast.Node, unlocked bool) {
+	if !a.emitOn || fi == nil {
+		return
+	}
+	if obj == "ref" && !isRefKind(fi.kind) {
+		return
+	}
+	lock, mutex := "", ""
+	if !unlocked {
+		var ms []string
+		for m := range a.locks {
+			ms = append(ms, m)
+		}
+		sort.Strings(ms)
+		for _, m := range ms {
+			if mutex != "" {
+				mutex += "+"
+			}
+			mutex += m
+			if lock == "" || a.locks[m] == "R" {
+				lock = a.locks[m]
+			}
+		}
+	}
+	fn := a.fn
+	if a.ctor && a.postGo {
+		fn += "$post"
+	}
+	esc := ""
+	if strings.HasPrefix(how, "escape:") {
+		esc = strings.SplitN(strings.SplitN(how[len("escape:"):], ":", 2)[0], "@", 2)[0]
+	}
+	a.out = append(a.out, access{fn, fi.name, fi.region, obj, write, atomic, lock, mutex, esc, how, append([]string(nil), a.ord...), a.pos(n)})
+}
+
+func (a *analyzer) emitSrcs(ss []src, write bool, how string, n ast.Node, unlocked bool) {
+	for _, s := range ss {
+		h := how
+		if s.via != "" {
+			h = how + "@" + s.via
+		}
+		a.emit(s.fi, "ref", write, false, h, n, unlocked)
+	}
+}
+
+// fieldOf: the tracked field / variable an expression names directly.
+func (a *analyzer) fieldOf(e ast.Expr) *fieldInfo {
+	switch v := e.(type) {
+	case *ast.ParenExpr:
+		return a.fieldOf(v.X)
+	case *ast.SelectorExpr:
+		if sel := a.tp.info.Selections[v]; sel != nil && sel.Kind() == types.FieldVal {
+			if fv, ok := sel.Obj().(*types.Var); ok {
+				return a.byObj[fv.Origin()]
+			}
+		}
+	case *ast.Ident:
+		if o, ok := a.tp.info.Uses[v].(*types.Var); ok {
+			return a.byObj[o.Origin()]
+		}
+		if o, ok := a.tp.info.Defs[v].(*types.Var); ok {
+			return a.byObj[o.Origin()]
+		}
+	}
+	return nil
+}
+
+func (a *analyzer) localVar(e ast.Expr) *types.Var {
+	id, ok := e.(*ast.Ident)
+	if !ok {
+		return nil
+	}
+	o, _ := a.tp.info.Uses[id].(*types.Var)
+	if o == nil {
+		o, _ = a.tp.info.Defs[id].(*types.Var)
+	}
+	if o == nil || o.IsField() || a.byObj[o] != nil {
+		return nil
+	}
+	if o.Parent() == a.tp.pkg.Scope() { // package-level variable of an untracked kind
+		return nil
+	}
+	return o
+}
+
+func (a *analyzer) typeOf(e ast.Expr) types.Type {
+	if tv, ok := a.tp.info.Types[e]; ok && tv.Type != nil {
+		return tv.Type
+	}
+	if id, ok := e.(*ast.Ident); ok {
+		if o := a.tp.info.Uses[id]; o != nil {
+			return o.Type()
+		}
+	}
+	return types.Typ[types.Invalid]
+}
+
+func (a *analyzer) addAlias(v *types.Var, ss []src) {
+	if v == nil || len(ss) == 0 {
+		return
+	}
+	m := a.alias[v]
+	if m == nil {
+		m = map[*fieldInfo]string{}
+		a.alias[v] = m
+	}
+	for _, s := range ss {
+		m[s.fi] = v.Name()
+	}
+}
+
+func (a *analyzer) aliasSrcs(v *types.Var) []src {
+	var out []src
+	for fi, via := range a.alias[v] {
+		out = append(out, src{fi, via})
+	}
+	sort.Slice(out, func(i, j int) bool { return out[i].fi.name < out[j].fi.name })
+	return out
+}
+
+// walk visits an expression whose value is needed, records the accesses this implies and returns the
+// tracked referents the VALUE may alias (a slice sharing the backing array, a copy of the pointer …).
+func (a *analyzer) walk(e ast.Expr) []src {
+	switch v := e.(type) {
+	case nil:
+		return nil
+	case *ast.ParenExpr:
+		return a.walk(v.X)
+	case *ast.Ident:
+		if fi := a.fieldOf(v); fi != nil {
+			a.emit(fi, "var", false, false, "direct", v, false)
+			if isRefKind(fi.kind) {
+				return []src{{fi, ""}}
+			}
+			return nil
+		}
+		if lv := a.localVar(v); lv != nil {
+			return a.aliasSrcs(lv)
+		}
+		return nil
+	case *ast.SelectorExpr:
+		if fi := a.fieldOf(v); fi != nil {
+			a.walkBase(v.X)
+			a.emit(fi, "var", false, false, "direct", v, false)
+			if isRefKind(fi.kind) {
+				return []src{{fi, ""}}
+			}
+			return nil
+		}
+		if _, isPkg := a.tp.info.Uses[identOf(v.X)].(*types.PkgName); isPkg {
+			return nil
+		}
+		ss := a.walk(v.X)
+		if len(ss) > 0 {
+			if sel := a.tp.info.Selections[v]; sel != nil && sel.Kind() == types.FieldVal {
+				a.emitSrcs(ss, false, "direct", v, false) // p.x through a tracked pointer: reads the pointee
+			} else if sel != nil && sel.Kind() == types.MethodVal {
+				a.emitSrcs(ss, false, "escape:methodvalue", v, true)
+			}
+		}
+		return nil
+	case *ast.IndexExpr:
+		ss := a.walk(v.X)
+		a.walk(v.Index)
+		if _, isSig := a.typeOf(v.X).Underlying().(*types.Signature); isSig {
+			return ss // generic instantiation f[T]
+		}
+		a.emitSrcs(ss, false, "direct", v, false)
+		return nil
+	case *ast.IndexListExpr:
+		return a.walk(v.X)
+	case *ast.SliceExpr:
+		ss := a.walk(v.X)
+		a.walk(v.Low)
+		a.walk(v.High)
+		a.walk(v.Max)
+		switch a.typeOf(v.X).Underlying().(type) {
+		case *types.Slice:
+			return ss
+		case *types.Pointer: // pointer to array
+			return ss
+		}
+		if len(ss) > 0 { // string / array value: reading it
+			a.emitSrcs(ss, false, "direct", v, false)
+		}
+		return nil
+	case *ast.StarExpr:
+		ss := a.walk(v.X)
+		a.emitSrcs(ss, false, "direct", v, false)
+		return nil
+	case *ast.UnaryExpr:
+		if v.Op == token.AND {
+			return a.walkAddr(v.X, v)
+		}
+		ss := a.walk(v.X)
+		_ = ss // <-ch: a channel operation synchronises, the channel's buffer is not a data referent
+		return nil
+	case *ast.BinaryExpr:
+		a.walk(v.X)
+		a.walk(v.Y)
+		return nil
+	case *ast.CallExpr:
+		return a.walkCall(v)
+	case *ast.CompositeLit:
+		a.walkCompositeLit(v)
+		return nil
+	case *ast.KeyValueExpr:
+		a.walk(v.Key)
+		return a.walk(v.Value)
+	case *ast.FuncLit:
+		a.nclos++
+		a.pending = append(a.pending, closure{v, fmt.Sprintf("%s$%d", a.fn, a.nclos), nil})
+		return nil
+	case *ast.TypeAssertExpr:
+		return a.walk(v.X)
+	}
+	return nil
+}
+
+func identOf(e ast.Expr) *ast.Ident {
+	id, _ := e.(*ast.Ident)
+	return id
+}
+
+// walkBase visits the object expression of a field selector (`s` in `s.f`, `a.b` in `a.b.f`).
+func (a *analyzer) walkBase(e ast.Expr) {
+	switch v := e.(type) {
+	case *ast.Ident:
+		if fi := a.fieldOf(v); fi != nil { // a tracked variable holding the object (locals / globals mode)
+			a.emit(fi, "var", false, false, "direct", v, false)
+		}
+	default:
+		a.walk(e)
+	}
+}
+
+// walkAddr: &x
+func (a *analyzer) walkAddr(x ast.Expr, at ast.Node) []src {
+	switch v := x.(type) {
+	case *ast.ParenExpr:
+		return a.walkAddr(v.X, at)
+	case *ast.IndexExpr: // &s.f[i]: a pointer into the referent
+		ss := a.walk(v.X)
+		a.walk(v.Index)
+		return ss
+	case *ast.CompositeLit:
+		a.walkCompositeLit(v)
+		return nil
+	case *ast.SelectorExpr, *ast.Ident:
+		if fi := a.fieldOf(v); fi != nil {
+			if se, ok := v.(*ast.SelectorExpr); ok {
+				a.walkBase(se.X)
+			}
+			if fi.kind == "mutex" || fi.kind == "sync" || fi.kind == "atomicval" {
+				return nil
+			}
+			// the address of a shared variable leaves the expression: whoever gets it may write it, unlocked
+			a.emit(fi, "var", true, false, "escape:addr", at, true)
+			return nil
+		}
+		if se, ok := v.(*ast.SelectorExpr); ok {
+			return a.walkNoRead(se.X)
+		}
+		return nil
+	}
+	a.walk(x)
+	return nil
+}
+
+// walkNoRead: the referents an lvalue path goes through, without recording a read of the last hop.
+func (a *analyzer) walkNoRead(e ast.Expr) []src {
+	switch v := e.(type) {
+	case *ast.ParenExpr:
+		return a.walkNoRead(v.X)
+	case *ast.Ident, *ast.SelectorExpr:
+		if fi := a.fieldOf(v); fi != nil {
+			if se, ok := v.(*ast.SelectorExpr); ok {
+				a.walkBase(se.X)
+			}
+			a.emit(fi, "var", false, false, "direct", v, false)
+			if isRefKind(fi.kind) {
+				return []src{{fi, ""}}
+			}
+			return nil
+		}
+		if lv := a.localVar(v); lv != nil {
+			return a.aliasSrcs(lv)
+		}
+		if se, ok := v.(*ast.SelectorExpr); ok {
+			return a.walkNoRead(se.X)
+		}
+	case *ast.IndexExpr:
+		ss := a.walkNoRead(v.X)
+		a.walk(v.Index)
+		return ss
+	case *ast.StarExpr:
+		return a.walkNoRead(v.X)
+	case *ast.SliceExpr:
+		return a.walkNoRead(v.X)
+	default:
+		return a.walk(e)
+	}
+	return nil
+}
+
+func (a *analyzer) structOfLit(v *ast.CompositeLit) *types.Struct {
+	t := a.typeOf(v)
+	if t == nil {
+		return nil
+	}
+	st, _ := derefT(t).Underlying().(*types.Struct)
+	return st
+}
+
+func (a *analyzer) walkCompositeLit(v *ast.CompositeLit) {
+	st := a.structOfLit(v)
+	for i, el := range v.Elts {
+		var val ast.Expr = el
+		var fi *fieldInfo
+		if kv, ok := el.(*ast.KeyValueExpr); ok {
+			val = kv.Value
+			if st != nil {
+				if id, ok := kv.Key.(*ast.Ident); ok {
+					if fv, ok := a.tp.info.Uses[id].(*types.Var); ok {
+						fi = a.byObj[fv.Origin()]
+					}
+				}
+			} else {
+				a.walk(kv.Key)
+			}
+		} else if st != nil && i < st.NumFields() {
+			fi = a.byObj[st.Field(i).Origin()]
+		}
+		ss := a.walk(val)
+		if fi != nil {
+			a.emit(fi, "var", true, false, "init", el, false) // construction of a tracked object
+			ss = dropField(ss, fi)
+		}
+		if len(ss) > 0 {
+			a.escape(ss, "escape:store", "", el)
+		}
+	}
+}
+
+func dropField(ss []src, fi *fieldInfo) []src {
+	var out []src
+	for _, s := range ss {
+		if s.fi.region != fi.region {
+			out = append(out, s)
+		}
+	}
+	return out
+}
+
+// escape: the reference leaves what the analysis follows; whoever holds it reads the referent later,
+// with nothing held.
+func (a *analyzer) escape(ss []src, how, callee string, n ast.Node) {
+	if callee != "" {
+		how += ":" + callee
+	}
+	if a.cfg.mode == "monitor" && (strings.HasPrefix(how, "escape:return") || strings.HasPrefix(how, "escape:arg") || strings.HasPrefix(how, "escape:store")) {
+		// inside a monitor the receiver of the reference runs inside the monitor too
+		a.emitSrcs(ss, false, how, n, false)
+		return
+	}
+	a.emitSrcs(ss, false, how, n, true)
+}
+
+func (a *analyzer) calleeOf(call *ast.CallExpr) (*types.Func, bool) {
+	var id *ast.Ident
+	switch f := call.Fun.(type) {
+	case *ast.Ident:
+		id = f
+	case *ast.SelectorExpr:
+		id = f.Sel
+	case *ast.IndexExpr:
+		switch g := f.X.(type) {
+		case *ast.Ident:
+			id = g
+		case *ast.SelectorExpr:
+			id = g.Sel
+		}
+	}
+	if id == nil {
+		return nil, false
+	}
+	o := a.tp.info.Uses[id]
+	if fn, ok := o.(*types.Func); ok {
+		return fn, true
+	}
+	if _, ok := o.(*types.Builtin); ok {
+		return nil, true
+	}
+	return nil, false
+}
+
+func (a *analyzer) isMutexType(t types.Type) bool {
+	p, n := namedOf(t)
+	return p == "sync" && (n == "Mutex" || n == "RWMutex")
+}
+
+func (a *analyzer) isSyncType(t types.Type) bool {
+	p, _ := namedOf(t)
+	return p == "sync" || p == "sync/atomic"
+}
+
+// mutexOp recognises X.Lock() / X.Unlock() / X.RLock() / X.RUnlock() on a sync.(RW)Mutex and names the mutex.
+func (a *analyzer) mutexOp(call *ast.CallExpr) (mutex, op string) {
+	se, ok := call.Fun.(*ast.SelectorExpr)
+	if !ok {
+		return "", ""
+	}
+	switch se.Sel.Name {
+	case "Lock", "Unlock", "RLock", "RUnlock":
+	default:
+		return "", ""
+	}
+	if !a.isMutexType(a.typeOf(se.X)) {
+		return "", ""
+	}
+	switch x := se.X.(type) {
+	case *ast.Ident:
+		return x.Name, se.Sel.Name
+	case *ast.SelectorExpr:
+		return x.Sel.Name, se.Sel.Name
+	}
+	return exprStr(a.w.c, se.X), se.Sel.Name
+}
+
+func (a *analyzer) retains(fn *types.Func) bool {
+	if fn == nil {
+		return true
+	}
+	if fn.Pkg() == nil {
+		return false
+	}
+	if nonRetaining[fn.Pkg().Path()] {
+		return false
+	}
+	k := shortKey(funcKey(fn))
+	for _, ok := range a.cfg.retainOK {
+		if ok == k {
+			return false
+		}
+	}
+	return true
+}
+
+func (a *analyzer) walkCall(call *ast.CallExpr) []src {
+	name := exprStr(a.w.c, call.Fun)
+	if name == "verifTrace" {
+		return nil // instrumentation (build tag verif), as in the skeleton
+	}
+	// conversion T(x): shares the referent
+	if tv, ok := a.tp.info.Types[call.Fun]; ok && tv.IsType() {
+		var ss []src
+		for _, arg := range call.Args {
+			ss = append(ss, a.walk(arg)...)
+		}
+		switch a.typeOf(call).Underlying().(type) {
+		case *types.Slice, *types.Pointer, *types.Map, *types.Signature, *types.Interface:
+			return ss
+		}
+		if len(ss) > 0 {
+			a.emitSrcs(ss, false, "direct", call, false) // string(b): copies, i.e. reads
+		}
+		return nil
+	}
+	fn, known := a.calleeOf(call)
+	// sync/atomic on &field
+	if fn != nil && fn.Pkg() != nil && fn.Pkg().Path() == "sync/atomic" && len(call.Args) > 0 {
+		if u, ok := call.Args[0].(*ast.UnaryExpr); ok && u.Op == token.AND {
+			if fi := a.fieldOf(u.X); fi != nil {
+				if se, ok := u.X.(*ast.SelectorExpr); ok {
+					a.walkBase(se.X)
+				}
+				a.emit(fi, "var", !strings.HasPrefix(fn.Name(), "Load"), true, "atomic."+fn.Name(), call, false)
+				for _, arg := range call.Args[1:] {
+					a.walk(arg)
+				}
+				return nil
+			}
+		}
+	}
+	// builtins
+	if fn == nil && known {
+		id := identOf(call.Fun)
+		bn := ""
+		if id != nil {
+			bn = id.Name
+		}
+		switch bn {
+		case "len", "cap":
+			for _, arg := range call.Args {
+				ss := a.walk(arg)
+				if _, isMap := a.typeOf(arg).Underlying().(*types.Map); isMap {
+					a.emitSrcs(ss, false, "direct", call, false)
+				}
+			}
+			return nil
+		case "append":
+			var s0 []src
+			for i, arg := range call.Args {
+				ss := a.walk(arg)
+				if i == 0 {
+					s0 = ss
+					a.emitSrcs(ss, false, "direct", call, false)
+					a.emitSrcs(ss, true, "append", call, false) // may write in place (always does after a reslice)
+				} else if call.Ellipsis.IsValid() && i == len(call.Args)-1 {
+					a.emitSrcs(ss, false, "direct", call, false)
+				} else if len(ss) > 0 {
+					a.escape(ss, "escape:store", "", arg)
+				}
+			}
+			return s0
+		case "copy":
+			for i, arg := range call.Args {
+				ss := a.walk(arg)
+				a.emitSrcs(ss, i == 0, "copy", call, false)
+			}
+			return nil
+		case "delete", "clear":
+			for i, arg := range call.Args {
+				ss := a.walk(arg)
+				if i == 0 {
+					a.emitSrcs(ss, true, bn, call, false)
+				}
+			}
+			return nil
+		case "close":
+			for _, arg := range call.Args {
+				a.walk(arg)
+			}
+			return nil
+		default:
+			for _, arg := range call.Args {
+				ss := a.walk(arg)
+				if len(ss) > 0 && (bn == "panic" || bn == "print" || bn == "println") {
+					a.emitSrcs(ss, false, "direct", call, false)
+				}
+			}
+			return nil
+		}
+	}
+	// static calls inside the package: remember whether the lock is held at the call site
+	if fn != nil && fn.Pkg() == a.tp.pkg {
+		ci := a.calls[fn.Name()]
+		if ci == nil {
+			ci = &callInfo{}
+			a.calls[fn.Name()] = ci
+		}
+		if a.emitOn {
+			if a.locks["*"] == "W" || len(a.locks) > 0 && a.onlyW() || (a.ctor && !a.postGo) {
+				ci.locked++
+			} else {
+				ci.unlocked++
+			}
+		}
+	}
+	// method call / call through a function value
+	if se, ok := call.Fun.(*ast.SelectorExpr); ok {
+		if sel := a.tp.info.Selections[se]; sel != nil && sel.Kind() == types.MethodVal {
+			a.walkMethodCall(call, se, fn)
+			a.walkArgs(call, fn)
+			return nil
+		}
+		if fi := a.fieldOf(se); fi != nil && fi.kind == "func" { // s.newer()
+			a.walkBase(se.X)
+			a.emit(fi, "var", false, false, "direct", se, false)
+			a.callFuncValue(fi, call)
+			a.walkArgs(call, nil)
+			return nil
+		}
+	}
+	if id, ok := call.Fun.(*ast.Ident); ok {
+		if fi := a.fieldOf(id); fi != nil && fi.kind == "func" { // writeOutput()
+			a.emit(fi, "var", false, false, "direct", id, false)
+			a.callFuncValue(fi, call)
+			a.walkArgs(call, nil)
+			return nil
+		}
+		if lv := a.localVar(id); lv != nil {
+			a.emitSrcs(a.aliasSrcs(lv), true, "call:func", call, false)
+		}
+	}
+	if fl, ok := call.Fun.(*ast.FuncLit); ok {
+		a.walk(fl)
+	}
+	a.walkArgs(call, fn)
+	return nil
+}
+
+// callFuncValue: calling a function value runs a body this table does not see; it counts as a write to
+// whatever the closure captured (the field's referent) unless the configuration names it read-only.
+func (a *analyzer) callFuncValue(fi *fieldInfo, call *ast.CallExpr) {
+	if a.isReadOnlyCall("func:" + fi.obj.Name()) {
+		a.assumed["func:"+fi.obj.Name()] = true
+		a.emit(fi, "ref", false, false, "call!:func", call, false)
+		return
+	}
+	a.emit(fi, "ref", true, false, "call:func", call, false)
+}
+
+func (a *analyzer) onlyW() bool {
+	for _, m := range a.locks {
+		if m != "W" {
+			return false
+		}
+	}
+	return true
+}
+
+func (a *analyzer) walkArgs(call *ast.CallExpr, fn *types.Func) {
+	callee := exprStr(a.w.c, call.Fun)
+	for _, arg := range call.Args {
+		ss := a.walk(arg)
+		if len(ss) == 0 {
+			continue
+		}
+		if a.retains(fn) {
+			a.escape(ss, "escape:arg", callee, arg)
+		} else {
+			write := fn != nil && fn.Pkg() != nil && (fn.Pkg().Path() == "sort" || fn.Pkg().Path() == "slices" && strings.HasPrefix(fn.Name(), "Sort"))
+			a.emitSrcs(ss, write, "arg:"+callee, arg, false)
+		}
+	}
+}
+
+// walkMethodCall: R.M(args)
+func (a *analyzer) walkMethodCall(call *ast.CallExpr, se *ast.SelectorExpr, fn *types.Func) {
+	rt := a.typeOf(se.X)
+	if a.isSyncType(rt) {
+		// a synchronisation object: Lock/Unlock are handled at statement level, WaitGroup/Once calls are
+		// synchronising operations, not data accesses
+		return
+	}
+	key := ""
+	if fn != nil {
+		key = shortKey(funcKey(fn))
+	}
+	rp, rn := namedOf(rt)
+	self := selfSync[shortKey(rp)+"."+rn] || selfSync[rp+"."+rn]
+	var fi *fieldInfo
+	var ss []src
+	if fi = a.fieldOf(se.X); fi != nil {
+		if inner, ok := se.X.(*ast.SelectorExpr); ok {
+			a.walkBase(inner.X)
+		}
+		if isRefKind(fi.kind) {
+			a.emit(fi, "var", false, false, "direct", se.X, false)
+			ss = []src{{fi, ""}}
+		} else {
+			// a method on a struct-valued field operates on the field in place
+			w := a.mutates(fn)
+			a.emit(fi, "var", w, false, "call:"+key, call, false)
+			return
+		}
+	} else {
+		ss = a.walk(se.X)
+	}
+	if len(ss) == 0 {
+		return
+	}
+	switch {
+	case self:
+		for _, s := range ss {
+			a.emit(s.fi, "ref", true, true, "call:"+key+"(self-synchronised)", call, false)
+		}
+	case a.isReadOnlyCall(key):
+		a.assumed[key] = true
+		a.emitSrcs(ss, false, "call!:"+key, call, false)
+	default:
+		a.emitSrcs(ss, a.mutates(fn), "call:"+key, call, false)
+	}
+}
+
+func (a *analyzer) isReadOnlyCall(key string) bool {
+	for _, k := range a.cfg.readOnlyCalls {
+		if k == key {
+			return true
+		}
+	}
+	return false
+}
+
+// mutates: may a call of fn write state reachable from its receiver?  Concrete methods with source in a
+// loaded package are scanned (assignments / append / copy / delete rooted at the receiver, calls of other
+// methods on receiver-rooted paths, transitively); an interface method is the disjunction over the
+// methods of that name in the loaded packages; anything else is assumed to write.
+func (a *analyzer) mutates(fn *types.Func) bool {
+	if fn == nil {
+		return true
+	}
+	sig, _ := fn.Type().(*types.Signature)
+	if sig == nil || sig.Recv() == nil {
+		return true
+	}
+	if _, isIface := derefT(sig.Recv().Type()).Underlying().(*types.Interface); isIface {
+		found, res := false, false
+		suffix := "." + fn.Name()
+		var keys []string
+		for k := range a.w.funcs {
+			keys = append(keys, k)
+		}
+		sort.Strings(keys)
+		for _, k := range keys {
+			fs := a.w.funcs[k]
+			if strings.HasSuffix(k, suffix) && fs.fd.Recv != nil && strings.Count(k[strings.LastIndex(k, "/")+1:], ".") == 2 {
+				found = true
+				if a.mutatesKey(k) {
+					res = true
+				}
+			}
+		}
+		return !found || res
+	}
+	k := funcKey(fn)
+	if _, ok := a.w.funcs[k]; !ok {
+		return true
+	}
+	return a.mutatesKey(k)
+}
+
+func (a *analyzer) mutatesKey(k string) bool {
+	switch a.mutMemo[k] {
+	case 1:
+		return false // in progress / known clean
+	case 2:
+		return true
+	}
+	a.mutMemo[k] = 1
+	fs := a.w.funcs[k]
+	info := fs.tp.info
+	var recv types.Object
+	if fs.fd.Recv != nil && len(fs.fd.Recv.List) > 0 && len(fs.fd.Recv.List[0].Names) > 0 {
+		recv = info.Defs[fs.fd.Recv.List[0].Names[0]]
+	}
+	if recv == nil {
+		return false
+	}
+	_, ptrRecv := recv.Type().(*types.Pointer)
+	var rooted func(e ast.Expr) (bool, bool)
+	rooted = func(e ast.Expr) (isRooted, throughRef bool) {
+		switch v := e.(type) {
+		case *ast.Ident:
+			return info.Uses[v] == recv, false
+		case *ast.ParenExpr:
+			return rooted(v.X)
+		case *ast.SelectorExpr:
+			r, t := rooted(v.X)
+			if r {
+				if _, isPtr := info.TypeOf(v.X).Underlying().(*types.Pointer); isPtr && !(identOf(v.X) != nil && info.Uses[identOf(v.X)] == recv) {
+					t = true
+				}
+			}
+			return r, t
+		case *ast.IndexExpr:
+			r, t := rooted(v.X)
+			if r {
+				switch info.TypeOf(v.X).Underlying().(type) {
+				case *types.Slice, *types.Map, *types.Pointer:
+					t = true
+				}
+			}
+			return r, t
+		case *ast.SliceExpr:
+			r, _ := rooted(v.X)
+			return r, true
+		case *ast.StarExpr:
+			r, _ := rooted(v.X)
+			return r, true
+		}
+		return false, false
+	}
+	writes := func(e ast.Expr) bool {
+		if id, ok := e.(*ast.Ident); ok && info.Uses[id] == recv {
+			return false // rebinding the receiver variable itself
+		}
+		r, t := rooted(e)
+		return r && (ptrRecv || t)
+	}
+	dirty := false
+	ast.Inspect(fs.fd.Body, func(n ast.Node) bool {
+		if dirty {
+			return false
+		}
+		switch v := n.(type) {
+		case *ast.AssignStmt:
+			for _, l := range v.Lhs {
+				if writes(l) {
+					dirty = true
+				}
+			}
+		case *ast.IncDecStmt:
+			if writes(v.X) {
+				dirty = true
+			}
+		case *ast.CallExpr:
+			if id, ok := v.Fun.(*ast.Ident); ok {
+				if _, isB := info.Uses[id].(*types.Builtin); isB && len(v.Args) > 0 {
+					switch id.Name {
+					case "append", "copy", "delete", "clear":
+						if r, _ := rooted(v.Args[0]); r {
+							dirty = true
+						}
+					}
+				}
+			}
+			if se, ok := v.Fun.(*ast.SelectorExpr); ok {
+				if sel := info.Selections[se]; sel != nil && sel.Kind() == types.MethodVal {
+					if r, _ := rooted(se.X); r {
+						if callee, ok := sel.Obj().(*types.Func); ok {
+							p, _ := namedOf(info.TypeOf(se.X))
+							if p == "sync" || p == "sync/atomic" {
+								return true
+							}
+							ck := funcKey(callee)
+							if _, has := a.w.funcs[ck]; has {
+								if a.mutatesKey(ck) {
+									dirty = true
+								}
+							}
+						}
+					}
+				}
+			}
+		}
+		return true
+	})
+	if dirty {
+		a.mutMemo[k] = 2
+	}
+	return dirty
+}
+
+// ------------------------------------------------------------------ statements
+
+func (a *analyzer) pushFrame(label string, isLoop bool) *loopFrame {
+	f := &loopFrame{label: label, isLoop: isLoop}
+	a.frames = append(a.frames, f)
+	return f
+}
+
+func (a *analyzer) popFrame() { a.frames = a.frames[:len(a.frames)-1] }
+
+func (a *analyzer) block(list []ast.Stmt) (terminated bool) {
+	for _, s := range list {
+		if a.stmt(s) {
+			return true
+		}
+	}
+	return false
+}
+
+// assignTo handles one `lhs = rhs` pair (rhs already walked: ss are the referents its value aliases).
+func (a *analyzer) assignTo(lhs ast.Expr, ss []src, opAssign bool, at ast.Node) {
+	if id, ok := lhs.(*ast.Ident); ok && id.Name == "_" {
+		return
+	}
+	if fi := a.fieldOf(lhs); fi != nil {
+		if se, ok := lhs.(*ast.SelectorExpr); ok {
+			a.walkBase(se.X)
+		}
+		if opAssign {
+			a.emit(fi, "var", false, false, "direct", lhs, false)
+		}
+		a.emit(fi, "var", true, false, "direct", lhs, false)
+		if rest := dropField(ss, fi); len(rest) > 0 {
+			a.escape(rest, "escape:store", "", at)
+		}
+		return
+	}
+	if lv := a.localVar(lhs); lv != nil {
+		a.addAlias(lv, ss)
+		return
+	}
+	// an lvalue path: s.f[i], *p, p.x, s.v.x …
+	switch v := lhs.(type) {
+	case *ast.IndexExpr:
+		base := a.walkNoRead(v.X)
+		a.walk(v.Index)
+		if opAssign {
+			a.emitSrcs(base, false, "direct", lhs, false)
+		}
+		a.emitSrcs(base, true, "direct", lhs, false)
+	case *ast.StarExpr:
+		base := a.walkNoRead(v.X)
+		if opAssign {
+			a.emitSrcs(base, false, "direct", lhs, false)
+		}
+		a.emitSrcs(base, true, "direct", lhs, false)
+	case *ast.SelectorExpr:
+		// sub-field of a struct-valued tracked field (s.cfg.x = …) or of a tracked pointer's pointee (s.p.x = …)
+		if root := a.valueRoot(v.X); root != nil {
+			if opAssign {
+				a.emit(root, "var", false, false, "direct", lhs, false)
+			}
+			a.emit(root, "var", true, false, "direct", lhs, false)
+		} else {
+			base := a.walkNoRead(v.X)
+			if opAssign {
+				a.emitSrcs(base, false, "direct", lhs, false)
+			}
+			a.emitSrcs(base, true, "direct", lhs, false)
+		}
+	default:
+		a.walk(lhs)
+	}
+	if len(ss) > 0 {
+		how := "escape:store"
+		if id := identOf(lhs); id != nil {
+			if o, ok := a.tp.info.Uses[id].(*types.Var); ok && o.Parent() == a.tp.pkg.Scope() {
+				how = "escape:global" // parked in a package-level variable: reachable from every goroutine
+			}
+		}
+		a.escape(ss, how, "", at)
+	}
+}
+
+// valueRoot: e is (a path of value sub-fields below) a tracked struct-valued field.
+func (a *analyzer) valueRoot(e ast.Expr) *fieldInfo {
+	for {
+		if fi := a.fieldOf(e); fi != nil {
+			if !isRefKind(fi.kind) {
+				if se, ok := e.(*ast.SelectorExpr); ok {
+					a.walkBase(se.X)
+				}
+				return fi
+			}
+			return nil
+		}
+		se, ok := e.(*ast.SelectorExpr)
+		if !ok {
+			return nil
+		}
+		if _, isPtr := a.typeOf(se.X).Underlying().(*types.Pointer); isPtr {
+			return nil
+		}
+		e = se.X
+	}
+}
+
+func (a *analyzer) stmt(s ast.Stmt) (terminated bool) {
+	label := a.nextLabel
+	a.nextLabel = ""
+	switch v := s.(type) {
+	case nil:
+		return false
+	case *ast.ExprStmt:
+		if call, ok := v.X.(*ast.CallExpr); ok {
+			if m, op := a.mutexOp(call); m != "" {
+				switch op {
+				case "Lock":
+					a.locks[m] = "W"
+				case "RLock":
+					a.locks[m] = "R"
+				default:
+					delete(a.locks, m)
+				}
+				return false
+			}
+			if id := identOf(call.Fun); id != nil && id.Name == "panic" {
+				a.walk(call)
+				return true
+			}
+		}
+		a.walk(v.X)
+	case *ast.DeferStmt:
+		if m, op := a.mutexOp(v.Call); m != "" && (op == "Unlock" || op == "RUnlock") {
+			return false // held until the function returns
+		}
+		if fl, ok := v.Call.Fun.(*ast.FuncLit); ok {
+			for _, arg := range v.Call.Args {
+				a.walk(arg)
+			}
+			a.nclos++
+			a.pending = append(a.pending, closure{fl, fmt.Sprintf("%s$%d", a.fn, a.nclos), nil})
+			return false
+		}
+		// a deferred call runs at function exit, when locks released by other deferred calls may be gone
+		saved := a.locks
+		a.locks = lockState{}
+		a.walk(v.Call)
+		a.locks = saved
+	case *ast.GoStmt:
+		for _, arg := range v.Call.Args {
+			if ss := a.walk(arg); len(ss) > 0 {
+				a.escape(ss, "escape:go", "", arg)
+			}
+		}
+		if fl, ok := v.Call.Fun.(*ast.FuncLit); ok {
+			a.nclos++
+			name := fmt.Sprintf("%s$go%d", a.fn, a.nclos)
+			if a.cfg.mode == "locals" {
+				name = fmt.Sprintf("go%d", a.nclos)
+			}
+			a.pending = append(a.pending, closure{fl, name, nil})
+			if a.emitOn {
+				a.spawns = append(a.spawns, name)
+			}
+		} else {
+			if se, ok := v.Call.Fun.(*ast.SelectorExpr); ok {
+				a.walkBase(se.X)
+			}
+			if a.emitOn {
+				a.spawns = append(a.spawns, a.fn+"$go:"+exprStr(a.w.c, v.Call.Fun))
+			}
+		}
+		a.postGo = true
+	case *ast.AssignStmt:
+		opAssign := v.Tok != token.ASSIGN && v.Tok != token.DEFINE
+		if len(v.Lhs) == len(v.Rhs) {
+			for i := range v.Lhs {
+				ss := a.walk(v.Rhs[i])
+				a.assignTo(v.Lhs[i], ss, opAssign, v)
+			}
+		} else {
+			for _, r := range v.Rhs {
+				a.walk(r)
+			}
+			for _, l := range v.Lhs {
+				a.assignTo(l, nil, opAssign, v)
+			}
+		}
+	case *ast.IncDecStmt:
+		a.assignTo(v.X, nil, true, v)
+	case *ast.DeclStmt:
+		if gd, ok := v.Decl.(*ast.GenDecl); ok {
+			for _, sp := range gd.Specs {
+				if vs, ok := sp.(*ast.ValueSpec); ok {
+					for i, n := range vs.Names {
+						var ss []src
+						if i < len(vs.Values) {
+							ss = a.walk(vs.Values[i])
+						}
+						if i < len(vs.Values) || a.fieldOf(n) == nil || !a.isSyncType(a.typeOf(n)) {
+							if fi := a.fieldOf(n); fi == nil || i < len(vs.Values) {
+								a.assignTo(n, ss, false, v)
+							}
+						}
+					}
+				}
+			}
+		}
+	case *ast.SendStmt:
+		a.walk(v.Chan)
+		if ss := a.walk(v.Value); len(ss) > 0 {
+			a.escape(ss, "escape:send", "", v)
+		}
+	case *ast.ReturnStmt:
+		for _, r := range v.Results {
+			if ss := a.walk(r); len(ss) > 0 {
+				a.escape(ss, "escape:return", "", r)
+			}
+		}
+		return true
+	case *ast.BranchStmt:
+		switch v.Tok {
+		case token.BREAK:
+			for i := len(a.frames) - 1; i >= 0; i-- {
+				f := a.frames[i]
+				if v.Label == nil || f.label == v.Label.Name {
+					f.exits = append(f.exits, a.locks.clone())
+					break
+				}
+			}
+			return true
+		case token.CONTINUE:
+			for i := len(a.frames) - 1; i >= 0; i-- {
+				f := a.frames[i]
+				if f.isLoop && (v.Label == nil || f.label == v.Label.Name) {
+					f.exits = append(f.exits, a.locks.clone())
+					break
+				}
+			}
+			return true
+		case token.GOTO:
+			a.locks = lockState{}
+		}
+	case *ast.LabeledStmt:
+		a.nextLabel = v.Label.Name
+		return a.stmt(v.Stmt)
+	case *ast.BlockStmt:
+		return a.block(v.List)
+	case *ast.IfStmt:
+		a.stmt(v.Init)
+		a.walk(v.Cond)
+		entry := a.locks.clone()
+		t1 := a.block(v.Body.List)
+		s1 := a.locks
+		a.locks = entry.clone()
+		t2 := false
+		if v.Else != nil {
+			t2 = a.stmt(v.Else)
+		}
+		s2 := a.locks
+		switch {
+		case t1 && t2:
+			a.locks = entry
+			return true
+		case t1:
+			a.locks = s2
+		case t2:
+			a.locks = s1
+		default:
+			a.locks = meet(s1, s2)
+		}
+	case *ast.ForStmt:
+		a.stmt(v.Init)
+		a.walk(v.Cond)
+		f := a.pushFrame(label, true)
+		entry := a.locks.clone()
+		t := a.block(v.Body.List)
+		if !t {
+			a.stmt(v.Post)
+			f.exits = append(f.exits, a.locks.clone())
+		}
+		a.popFrame()
+		var exit lockState
+		if v.Cond != nil {
+			exit = entry
+		}
+		for _, e := range f.exits {
+			if exit == nil {
+				exit = e
+			} else {
+				exit = meet(exit, e)
+			}
+		}
+		if exit == nil { // for {} without break: never left
+			a.locks = entry
+			return true
+		}
+		a.locks = exit
+	case *ast.RangeStmt:
+		ss := a.walk(v.X)
+		switch a.typeOf(v.X).Underlying().(type) {
+		case *types.Map:
+			a.emitSrcs(ss, false, "range", v, false)
+		case *types.Slice:
+			if v.Value != nil {
+				a.emitSrcs(ss, false, "range", v, false)
+			}
+		case *types.Pointer:
+			a.emitSrcs(ss, false, "range", v, false)
+		}
+		f := a.pushFrame(label, true)
+		entry := a.locks.clone()
+		if !a.block(v.Body.List) {
+			f.exits = append(f.exits, a.locks.clone())
+		}
+		a.popFrame()
+		exit := entry
+		for _, e := range f.exits {
+			exit = meet(exit, e)
+		}
+		a.locks = exit
+	case *ast.SwitchStmt:
+		a.stmt(v.Init)
+		a.walk(v.Tag)
+		return a.clauses(label, v.Body.List, false)
+	case *ast.TypeSwitchStmt:
+		a.stmt(v.Init)
+		a.stmt(v.Assign)
+		return a.clauses(label, v.Body.List, false)
+	case *ast.SelectStmt:
+		return a.clauses(label, v.Body.List, true)
+	default:
+		_ = v
+	}
+	return false
+}
+
+func (a *analyzer) clauses(label string, list []ast.Stmt, isSelect bool) (terminated bool) {
+	f := a.pushFrame(label, false)
+	entry := a.locks.clone()
+	hasDefault := false
+	var exits []lockState
+	for _, cl := range list {
+		a.locks = entry.clone()
+		var body []ast.Stmt
+		switch c := cl.(type) {
+		case *ast.CaseClause:
+			if c.List == nil {
+				hasDefault = true
+			}
+			for _, e := range c.List {
+				a.walk(e)
+			}
+			body = c.Body
+		case *ast.CommClause:
+			if c.Comm == nil {
+				hasDefault = true
+			} else {
+				a.stmt(c.Comm)
+			}
+			body = c.Body
+		}
+		if !a.block(body) {
+			exits = append(exits, a.locks.clone())
+		}
+	}
+	a.popFrame()
+	exits = append(exits, f.exits...)
+	if !hasDefault && !isSelect {
+		exits = append(exits, entry)
+	}
+	if len(exits) == 0 {
+		a.locks = entry
+		return len(list) > 0
+	}
+	out := exits[0]
+	for _, e := range exits[1:] {
+		out = meet(out, e)
+	}
+	a.locks = out
+	return false
+}
+
+// runFlow analyses one function body and, after it, the closures found in it (nothing held on entry).
+func (a *analyzer) runFlow(name string, body *ast.BlockStmt, ord []string) {
+	a.fn, a.locks, a.frames, a.ord, a.postGo = name, lockState{}, nil, ord, false
+	a.nclos = 0
+	start := len(a.pending)
+	a.block(body.List)
+	todo := append([]closure(nil), a.pending[start:]...)
+	a.pending = a.pending[:start]
+	ctor := a.ctor
+	for _, cl := range todo {
+		a.ctor = false
+		n := a.nclos
+		a.runFlow(cl.name, cl.lit.Body, cl.ord)
+		a.nclos = n
+	}
+	a.ctor = ctor
+}
+
+// ------------------------------------------------------------------ drivers
+
+func (a *analyzer) addField(v *types.Var) {
+	if a.byObj[v] != nil {
+		return
+	}
+	fi := &fieldInfo{name: v.Name(), kind: kindOf(v.Type()), obj: v}
+	fi.region = fi.name
+	if r, ok := a.cfg.regions[fi.name]; ok {
+		fi.region = r
+	}
+	a.fields = append(a.fields, fi)
+	a.byObj[v] = fi
+}
+
+func structNames(tp *tpkg) []string {
+	var out []string
+	if tp.pkg == nil {
+		return nil
+	}
+	for _, n := range tp.pkg.Scope().Names() {
+		if tn, ok := tp.pkg.Scope().Lookup(n).(*types.TypeName); ok && !tn.IsAlias() {
+			if _, isStruct := tn.Type().Underlying().(*types.Struct); isStruct {
+				out = append(out, n)
+			}
+		}
+	}
+	return out
+}
+
+func newAnalyzer(w *typeWorld, cfg accessCfg) *analyzer {
+	return &analyzer{w: w, tp: w.pkgs[cfg.dir], cfg: cfg, byObj: map[*types.Var]*fieldInfo{}, alias: map[*types.Var]map[*fieldInfo]string{},
+		calls: map[string]*callInfo{}, assumed: map[string]bool{}, mutMemo: map[string]int{}}
+}
+
+func flowName(tp *tpkg, fd *ast.FuncDecl, own map[string]bool) string {
+	if fd.Recv != nil && len(fd.Recv.List) > 0 {
+		if fo, ok := tp.info.Defs[fd.Name].(*types.Func); ok {
+			_, n := namedOf(fo.Type().(*types.Signature).Recv().Type())
+			if !own[n] || len(own) > 1 {
+				return n + "." + fd.Name.Name
+			}
+		}
+	}
+	return fd.Name.Name
+}
+
+// collect runs the analysis for one configuration; ok=false when an anchor is missing.
+func (a *analyzer) collect(ctors []string) bool {
+	tp := a.tp
+	if tp == nil || tp.pkg == nil {
+		return false
+	}
+	own := map[string]bool{}
+	switch a.cfg.mode {
+	case "struct", "monitor":
+		names := strings.Split(a.cfg.typ, "|")
+		if a.cfg.typ == "*" {
+			names = structNames(tp)
+		}
+		for _, n := range names {
+			tn, _ := tp.pkg.Scope().Lookup(n).(*types.TypeName)
+			if tn == nil {
+				return false
+			}
+			st, _ := tn.Type().Underlying().(*types.Struct)
+			if st == nil {
+				return false
+			}
+			own[n] = true
+			a.structs = append(a.structs, n)
+			for i := 0; i < st.NumFields(); i++ {
+				a.addField(st.Field(i))
+			}
+		}
+		if a.cfg.mode == "monitor" { // field names are qualified: several structs share one table
+			for _, fi := range a.fields {
+				for _, n := range names {
+					tn := tp.pkg.Scope().Lookup(n).(*types.TypeName)
+					st := tn.Type().Underlying().(*types.Struct)
+					for i := 0; i < st.NumFields(); i++ {
+						if st.Field(i) == fi.obj {
+							fi.name = n + "." + fi.obj.Name()
+							fi.region = fi.name
+						}
+					}
+				}
+			}
+		}
+	case "globals":
+		for _, n := range tp.pkg.Scope().Names() {
+			if v, ok := tp.pkg.Scope().Lookup(n).(*types.Var); ok {
+				a.addField(v)
+			}
+		}
+	case "locals":
+		return a.collectLocals()
+	}
+	isCtor := map[string]bool{}
+	for _, c := range ctors {
+		isCtor[c] = true
+	}
+	type fl struct {
+		name string
+		fd   *ast.FuncDecl
+	}
+	var flows []fl
+	for _, f := range tp.files {
+		for _, d := range f.Decls {
+			if fd, ok := d.(*ast.FuncDecl); ok && fd.Body != nil {
+				flows = append(flows, fl{flowName(tp, fd, own), fd})
+			}
+		}
+	}
+	for pass := 0; pass < 2; pass++ {
+		a.emitOn = pass == 1
+		for _, f := range flows {
+			a.ctor = isCtor[f.name]
+			a.pending = nil
+			a.runFlow(f.name, f.fd.Body, nil)
+		}
+	}
+	// unexported helpers whose every call site holds the exclusive lock (or is in a constructor) inherit it
+	mutexName := ""
+	for _, fi := range a.fields {
+		if fi.kind == "mutex" {
+			mutexName = fi.name
+		}
+	}
+	for i := range a.out {
+		ac := &a.out[i]
+		base := ac.fn
+		if j := strings.IndexByte(base, '$'); j >= 0 {
+			continue
+		}
+		if ci := a.calls[base]; ci != nil && ci.locked > 0 && ci.unlocked == 0 && !ast.IsExported(base) && ac.lock == "" && mutexName != "" {
+			ac.lock, ac.mutex = "W", mutexName
+			ac.how += "(lock inherited from every call site)"
+		}
+	}
+	return len(a.fields) > 0
+}
+
+// collectLocals: the variables of one function that its goroutine closures share with its body are
+// treated like fields; the roles are "main" (the body) and "go<k>" (the k-th closure).
+func (a *analyzer) collectLocals() bool {
+	tp := a.tp
+	var fd *ast.FuncDecl
+	for _, f := range tp.files {
+		for _, d := range f.Decls {
+			if x, ok := d.(*ast.FuncDecl); ok && x.Name.Name == a.cfg.typ && x.Body != nil {
+				fd = x
+			}
+		}
+	}
+	if fd == nil {
+		return false
+	}
+	// tracked: parameters, and every variable declared in the function that a `go` closure mentions
+	for _, p := range fd.Type.Params.List {
+		for _, n := range p.Names {
+			if v, ok := tp.info.Defs[n].(*types.Var); ok {
+				a.addField(v)
+			}
+		}
+	}
+	var goLits []*ast.FuncLit
+	ast.Inspect(fd.Body, func(n ast.Node) bool {
+		if g, ok := n.(*ast.GoStmt); ok {
+			if fl, ok := g.Call.Fun.(*ast.FuncLit); ok {
+				goLits = append(goLits, fl)
+			}
+		}
+		return true
+	})
+	for _, fl := range goLits {
+		ast.Inspect(fl.Body, func(n ast.Node) bool {
+			if id, ok := n.(*ast.Ident); ok {
+				if v, ok := tp.info.Uses[id].(*types.Var); ok && !v.IsField() && v.Parent() != tp.pkg.Scope() && v.Pkg() == tp.pkg {
+					if !(fl.Pos() <= v.Pos() && v.Pos() <= fl.End()) { // declared outside the closure
+						a.addField(v)
+					}
+				}
+			}
+			return true
+		})
+	}
+	l := &localsRun{a: a, fd: fd, goLits: goLits}
+	l.findJoins()
+	for pass := 0; pass < 2; pass++ {
+		a.emitOn = pass == 1
+		a.pending = nil
+		l.run()
+	}
+	return true
+}
+
+type localsRun struct {
+	a      *analyzer
+	fd     *ast.FuncDecl
+	goLits []*ast.FuncLit
+	// joins: main's top-level statement index after which role k has ended (unbuffered hand-shake)
+	joinAfter map[ast.Stmt][]string
+}
+
+// findJoins looks for the hand-shake `CH := make(chan T)` (unbuffered), exactly one `CH <- v` in the body
+// outside every loop, and in closure k a single `case <-CH:` whose body touches nothing tracked and returns.
+// The receive happens before the send completes and is the last thing the closure does, so everything the
+// closure did is ordered before what follows the send.
+func (l *localsRun) findJoins() {
+	a, tp := l.a, l.a.tp
+	l.joinAfter = map[ast.Stmt][]string{}
+	for _, st := range l.fd.Body.List {
+		send, ok := st.(*ast.SendStmt)
+		if !ok {
+			continue
+		}
+		chID := identOf(send.Chan)
+		if chID == nil {
+			continue
+		}
+		ch, _ := tp.info.Uses[chID].(*types.Var)
+		if ch == nil || a.byObj[ch] == nil || a.byObj[ch].kind != "chan" {
+			continue
+		}
+		// unbuffered?
+		unbuffered := false
+		uses := 0
+		ast.Inspect(l.fd.Body, func(n ast.Node) bool {
+			switch v := n.(type) {
+			case *ast.AssignStmt:
+				for i, lh := range v.Lhs {
+					if id := identOf(lh); id != nil && tp.info.Defs[id] == ch && i < len(v.Rhs) {
+						if call, ok := v.Rhs[i].(*ast.CallExpr); ok && identOf(call.Fun) != nil && identOf(call.Fun).Name == "make" {
+							if len(call.Args) == 1 {
+								unbuffered = true
+							} else if n, ok := IntLit(call.Args[1]); ok && n == 0 {
+								unbuffered = true
+							}
+						}
+					}
+				}
+			case *ast.Ident:
+				if tp.info.Uses[v] == ch {
+					uses++
+				}
+			}
+			return true
+		})
+		if !unbuffered {
+			continue
+		}
+		// receivers
+		for k, fl := range l.goLits {
+			recvs, other := 0, 0
+			okShape := false
+			ast.Inspect(fl.Body, func(n ast.Node) bool {
+				switch v := n.(type) {
+				case *ast.CommClause:
+					if es, ok := v.Comm.(*ast.ExprStmt); ok {
+						if u, ok := es.X.(*ast.UnaryExpr); ok && u.Op == token.ARROW && identOf(u.X) != nil && tp.info.Uses[identOf(u.X)] == ch {
+							recvs++
+							clean := len(v.Body) > 0
+							for i, b := range v.Body {
+								_, isRet := b.(*ast.ReturnStmt)
+								isTrace := false
+								if es, ok := b.(*ast.ExprStmt); ok {
+									if c, ok := es.X.(*ast.CallExpr); ok && exprStr(a.w.c, c.Fun) == "verifTrace" {
+										isTrace = true
+									}
+								}
+								if !(isTrace || isRet && i == len(v.Body)-1) {
+									clean = false
+								}
+							}
+							if _, isRet := v.Body[len(v.Body)-1].(*ast.ReturnStmt); clean && isRet {
+								okShape = true
+							}
+							return false
+						}
+					}
+				case *ast.Ident:
+					if tp.info.Uses[v] == ch {
+						other++
+					}
+				}
+				return true
+			})
+			if recvs == 1 && other == 0 && okShape && uses == 2 { // one send in the body, one receive in the closure
+				l.joinAfter[st] = append(l.joinAfter[st], fmt.Sprintf("go%d", k+1))
+			}
+		}
+	}
+}
+
+func (l *localsRun) run() {
+	a := l.a
+	// main: accesses before the k-th `go` statement are ordered before role k (the go statement
+	// happens before the goroutine starts); accesses after a join are ordered after the joined role
+	allGo := []string{}
+	for k := range l.goLits {
+		allGo = append(allGo, fmt.Sprintf("go%d", k+1))
+	}
+	a.fn, a.locks, a.frames, a.postGo, a.nclos, a.ctor = "main", lockState{}, nil, false, 0, false
+	a.pending = nil
+	spawned := 0
+	var joined []string
+	ordNow := func() []string {
+		o := append([]string(nil), allGo[spawned:]...)
+		return append(o, joined...)
+	}
+	// parameters are bound before anything runs
+	for _, st := range l.fd.Body.List {
+		a.ord = ordNow()
+		before := a.nclos
+		a.stmt(st)
+		// count `go func` statements at top level that this statement contained
+		ast.Inspect(st, func(n ast.Node) bool {
+			if g, ok := n.(*ast.GoStmt); ok {
+				if _, ok := g.Call.Fun.(*ast.FuncLit); ok {
+					spawned++
+				}
+			}
+			return true
+		})
+		_ = before
+		if js, ok := l.joinAfter[st]; ok {
+			joined = append(joined, js...)
+		}
+	}
+	todo := append([]closure(nil), a.pending...)
+	a.pending = nil
+	for _, cl := range todo {
+		n := a.nclos
+		a.runFlow(cl.name, cl.lit.Body, nil)
+		a.nclos = n
+	}
+}
+
+// confinedEvidence checks syntactically that every value of struct type `typ` lives in one local variable of
+// one function and never leaves it: composite literals of the type only as `v := T{…}`, `v` used only as
+// `v.field` / `v.method(…)`, and inside the type's methods the receiver only as `s.…`.
+func confinedEvidence(c *Ctx, tp *tpkg, typ string) (bool, string) {
+	if tp == nil || tp.pkg == nil {
+		return false, "package not loaded"
+	}
+	tn, _ := tp.pkg.Scope().Lookup(typ).(*types.TypeName)
+	if tn == nil {
+		return false, "type not found"
+	}
+	isT := func(t types.Type) bool {
+		if t == nil {
+			return false
+		}
+		n, ok := derefT(t).(*types.Named)
+		return ok && n.Obj() == tn
+	}
+	holders := map[*types.Var]bool{}
+	okAll, why := true, ""
+	fail := func(s string) {
+		if okAll {
+			okAll, why = false, s
+		}
+	}
+	lits := 0
+	for _, f := range tp.files {
+		// parent map
+		parents := map[ast.Node]ast.Node{}
+		var stack []ast.Node
+		ast.Inspect(f, func(n ast.Node) bool {
+			if n == nil {
+				stack = stack[:len(stack)-1]
+				return true
+			}
+			if len(stack) > 0 {
+				parents[n] = stack[len(stack)-1]
+			}
+			stack = append(stack, n)
+			return true
+		})
+		ast.Inspect(f, func(n ast.Node) bool {
+			switch v := n.(type) {
+			case *ast.CompositeLit:
+				if isT(tp.info.TypeOf(v)) {
+					lits++
+					as, ok := parents[v].(*ast.AssignStmt)
+					if !ok || as.Tok != token.DEFINE || len(as.Lhs) != 1 {
+						fail("composite literal not bound by := to one local")
+						return true
+					}
+					if lv, ok := tp.info.Defs[identOf(as.Lhs[0])].(*types.Var); ok {
+						holders[lv] = true
+					}
+				}
+			case *ast.CallExpr:
+				if id := identOf(v.Fun); id != nil && id.Name == "new" && len(v.Args) == 1 && isT(tp.info.TypeOf(v.Args[0])) {
+					fail("new(T)")
+				}
+			case *ast.FuncDecl:
+				if v.Type.Results != nil {
+					for _, r := range v.Type.Results.List {
+						if isT(tp.info.TypeOf(r.Type)) {
+							fail("function returns the type")
+						}
+					}
+				}
+			}
+			return true
+		})
+		ast.Inspect(f, func(n ast.Node) bool {
+			id, ok := n.(*ast.Ident)
+			if !ok {
+				return true
+			}
+			v, _ := tp.info.Uses[id].(*types.Var)
+			if v == nil || !isT(v.Type()) || v.IsField() {
+				return true
+			}
+			// every use of a variable of the type (holder or method receiver) must be `v.something`
+			if se, ok := parents[id].(*ast.SelectorExpr); ok && se.X == id {
+				return true
+			}
+			fail(fmt.Sprintf("%s used as a value at line %d", id.Name, c.fset.Position(id.Pos()).Line))
+			return true
+		})
+	}
+	if lits == 0 {
+		fail("never constructed")
+	}
+	return okAll, why
+}
+
+// ------------------------------------------------------------------ emission
+
+var accessDirs = []string{"pkg/slicepool", "pkg/logger", "pkg/multiterm", "pkg/aggregation", "pkg/extractor", "pkg/extractor/batchers",
+	"pkg/multiterm/termrenderers", "cmd/helpers"}
+
+func leanBool(b bool) string {
+	if b {
+		return "true"
+	}
+	return "false"
+}
+
+func init() {
+	RegisterGen("Access", func(c *Ctx) string {
+		var sb strings.Builder
+		sb.WriteString("namespace Rare.Gen.Access\n\n")
+		sb.WriteString("structure Acc where\n  fn : String\n  field : String\n  region : String  -- referent region: fields whose referents may overlap share one\n  obj : String     -- \"var\": the field itself; \"ref\": what a reference-typed field refers to\n  write : Bool\n  atomic : Bool\n  lock : String    -- \"\" none, \"W\" exclusive, \"R\" shared\n  mutex : String   -- which mutex\n  esc : String     -- how the reference leaves the function: \"\" (it does not) return arg store global send go addr methodvalue\n  how : String     -- direct / alias (\"@x\") / append / call:… / escape:…\n  ord : List String  -- roles this access is ordered with (go statement, hand-shake)\n  line : Nat\n  deriving DecidableEq, Repr\n\n")
+		sb.WriteString("structure Fld where\n  name : String\n  kind : String    -- value slice map pointer chan func iface mutex sync atomicval\n  deriving DecidableEq, Repr\n\n")
+		w := c.world(accessDirs)
+		type cfgC struct {
+			accessCfg
+			ctors []string
+			doc   string
+		}
+		cfgs := []cfgC{
+			{accessCfg{lean: "batcher", dir: "pkg/extractor/batchers", mode: "struct", typ: "Batcher"}, []string{"newBatcher"}, "Batcher (reader goroutines, render goroutine, main)"},
+			{accessCfg{lean: "extractor", dir: "pkg/extractor", mode: "struct", typ: "Extractor",
+				readOnlyCalls: []string{"matchers.Factory.CreateInstance", "extractor.IgnoreSet.IgnoreMatch", "expressions.CompiledKeyBuilder.BuildKey"}},
+				[]string{"New"}, "Extractor (workers, closer goroutine, main, render goroutine)"},
+			{accessCfg{lean: "ignoreSet", dir: "pkg/extractor", mode: "struct", typ: "ExpressionIgnoreSet"}, []string{"NewIgnoreExpressions"}, "ExpressionIgnoreSet (shared by all workers)"},
+			{accessCfg{lean: "objectPool", dir: "pkg/slicepool", mode: "struct", typ: "ObjectPool"}, []string{"NewObjectPoolEx", "NewObjectPool"}, "ObjectPool (shared by all workers of one compiled expression)"},
+			{accessCfg{lean: "logger", dir: "pkg/logger", mode: "globals", regions: map[string]string{"logBuffer": "logger"}, retainOK: []string{"log.New"},
+				readOnlyCalls: []string{"func:OsExit"}}, []string{"init"}, "package state of pkg/logger (every goroutine logs)"},
+			{accessCfg{lean: "aggLoop", dir: "cmd/helpers", mode: "locals", typ: "RunAggregationLoop", regions: map[string]string{"aggregator": "aggstate", "writeOutput": "aggstate"},
+				readOnlyCalls: []string{"extractor.Extractor.ReadChan"}}, nil, "variables RunAggregationLoop shares with its ticker goroutine (roles main / go1)"},
+			{accessCfg{lean: "multitermGlobals", dir: "pkg/multiterm", mode: "globals"}, []string{"init"}, "package state of pkg/multiterm (render goroutine and main)"},
+			{accessCfg{lean: "aggregation", dir: "pkg/aggregation", mode: "monitor", typ: "*"}, nil, "aggregator state (monitor: only entered under RunAggregationLoop's outputMutex or after the ticker ended)"},
+			{accessCfg{lean: "multiterm", dir: "pkg/multiterm", mode: "monitor", typ: "*"}, nil, "terminal writers (monitor, as above)"},
+			{accessCfg{lean: "termrenderers", dir: "pkg/multiterm/termrenderers", mode: "monitor", typ: "*"}, nil, "renderers (monitor, as above)"},
+		}
+		var assumed []string
+		spawnsBy := map[string][]string{}
+		for _, cfg := range cfgs {
+			a := newAnalyzer(w, cfg.accessCfg)
+			if !a.collect(cfg.ctors) {
+				sb.WriteString(untranslatable(cfg.lean))
+				continue
+			}
+			fmt.Fprintf(&sb, "/-- fields of %s -/\ndef %sFields : List Fld := [", cfg.doc, cfg.lean)
+			for i, fi := range a.fields {
+				if i > 0 {
+					sb.WriteString(", ")
+				}
+				fmt.Fprintf(&sb, "⟨%s, %s⟩", leanStr(fi.name), leanStr(fi.kind))
+			}
+			sb.WriteString("]\n\n")
+			fmt.Fprintf(&sb, "/-- accesses to %s in %s -/\ndef %s : List Acc := [\n", cfg.doc, cfg.dir, cfg.lean)
+			for i, ac := range a.out {
+				sep := ","
+				if i == len(a.out)-1 {
+					sep = ""
+				}
+				fmt.Fprintf(&sb, "  ⟨%s, %s, %s, %s, %s, %s, %s, %s, %s, %s, %s, %d⟩%s\n", leanStr(ac.fn), leanStr(ac.field), leanStr(ac.region), leanStr(ac.obj), leanBool(ac.write), leanBool(ac.atomic),
+					leanStr(ac.lock), leanStr(ac.mutex), leanStr(ac.esc), leanStr(ac.how), leanStrList(ac.ord), ac.line, sep)
+			}
+			sb.WriteString("]\n\n")
+			fmt.Fprintf(&sb, "/-- constructors of %s: they run before the object is shared (up to their first `go` statement) -/\ndef %sCtors : List String := %s\n\n", cfg.lean, cfg.lean, leanStrList(cfg.ctors))
+			for k := range a.assumed {
+				assumed = append(assumed, cfg.lean+":"+k)
+			}
+			spawnsBy[cfg.dir] = a.spawns
+		}
+		sort.Strings(assumed)
+		fmt.Fprintf(&sb, "/-- calls through a shared reference that are taken to be read-only on their receiver: the other\n    component's contract (\"can be considered thread-safe\"), not checked here -/\ndef assumedReadOnly : List String := %s\n\n", leanStrList(assumed))
+		// goroutines started per package
+		var dirs []string
+		for d := range spawnsBy {
+			dirs = append(dirs, d)
+		}
+		sort.Strings(dirs)
+		sb.WriteString("/-- `go` statements per analysed package (flow that contains them) -/\ndef spawns : List (String × List String) := [")
+		for i, d := range dirs {
+			if i > 0 {
+				sb.WriteString(", ")
+			}
+			fmt.Fprintf(&sb, "(%s, %s)", leanStr(d), leanStrList(spawnsBy[d]))
+		}
+		sb.WriteString("]\n\n")
+		// census of struct types
+		class := map[string]string{
+			"pkg/extractor/batchers.Batcher":            "shared:batcher",
+			"pkg/extractor/batchers.readerMetrics":      "confined:one per reader goroutine (created in syncReaderToBatcher*, held by that goroutine's readahead scanner)",
+			"pkg/extractor.Extractor":                   "shared:extractor",
+			"pkg/extractor.ExpressionIgnoreSet":         "shared:ignoreSet",
+			"pkg/extractor.extractorInstance":           "confined:checked",
+			"pkg/extractor.SliceSpaceExpressionContext": "confined:one per worker (only reachable from its extractorInstance)",
+			"pkg/extractor.InputBatch":                  "message:handed over through the batch channel, the sender drops its reference",
+			"pkg/extractor.Match":                       "message:handed over through readChan",
+			"pkg/extractor.Config":                      "value:copied into Extractor.config by New",
+			"pkg/slicepool.ObjectPool":                  "shared:objectPool",
+			"pkg/slicepool.IntPool":                     "confined:one per matcher instance, i.e. per worker (created in CreateInstance)",
+		}
+		ok, why := confinedEvidence(c, w.pkgs["pkg/extractor"], "extractorInstance")
+		fmt.Fprintf(&sb, "/-- `extractorInstance` values live in one local of one goroutine and never leave it (syntactic check) -/\ndef extractorInstanceConfined : Bool := %s  -- %s\n\n", leanBool(ok), why)
+		sb.WriteString("/-- every struct type of the analysed packages with its sharing class -/\ndef census : List (String × String) := [\n")
+		var rows []string
+		for _, d := range accessDirs {
+			tp := w.pkgs[d]
+			for _, n := range structNames(tp) {
+				k := d + "." + n
+				cl, has := class[k]
+				if !has {
+					switch d {
+					case "pkg/aggregation":
+						cl = "monitor:aggregation"
+					case "pkg/multiterm":
+						cl = "monitor:multiterm"
+					case "pkg/multiterm/termrenderers":
+						cl = "monitor:termrenderers"
+					default:
+						cl = "unclassified"
+					}
+				}
+				rows = append(rows, fmt.Sprintf("  (%s, %s)", leanStr(k), leanStr(cl)))
+			}
+		}
+		sb.WriteString(strings.Join(rows, ",\n"))
+		sb.WriteString("\n]\n\n")
+		var terrs []string
+		for _, d := range accessDirs {
+			if tp := w.pkgs[d]; tp != nil && len(tp.errs) > 0 {
+				terrs = append(terrs, d+": "+tp.errs[0])
+			}
+		}
+		fmt.Fprintf(&sb, "/-- type errors met while loading the packages (must be empty for the table to mean anything) -/\ndef typeErrors : List String := %s\n\n", leanStrList(terrs))
+		sb.WriteString("end Rare.Gen.Access\n")
+		return sb.String()
+	})
 }
 
 func (c *Ctx) pkgFiles(dir string) []string {
@@ -39,310 +2191,4 @@ func (c *Ctx) pkgFiles(dir string) []string {
 	}
 	sort.Strings(out)
 	return out
-}
-
-func recvName(fd *ast.FuncDecl, typ string) string {
-	if fd.Recv == nil || len(fd.Recv.List) == 0 {
-		return ""
-	}
-	t := fd.Recv.List[0].Type
-	if st, ok := t.(*ast.StarExpr); ok {
-		t = st.X
-	}
-	if ix, ok := t.(*ast.IndexExpr); ok {
-		t = ix.X
-	}
-	id, ok := t.(*ast.Ident)
-	if !ok || len(fd.Recv.List[0].Names) == 0 {
-		return ""
-	}
-	match := false
-	for _, alt := range strings.Split(typ, "|") {
-		if id.Name == alt {
-			match = true
-		}
-	}
-	if !match {
-		return ""
-	}
-	return fd.Recv.List[0].Names[0].Name
-}
-
-func (c *Ctx) collectAccesses(cfg accessCfg) ([]access, bool) {
-	isField := map[string]bool{}
-	for _, f := range cfg.fields {
-		isField[f] = true
-	}
-	var out []access
-	found := false
-	// helper functions whose every call site holds the lock inherit it
-	type callInfo struct{ locked, unlocked int }
-	calls := map[string]*callInfo{}
-	type pending struct {
-		fn  string
-		acc []access
-	}
-	var perFn []pending
-
-	for _, rel := range c.pkgFiles(cfg.dir) {
-		f := c.File(rel)
-		if f == nil {
-			continue
-		}
-		for _, d := range f.Decls {
-			fd, ok := d.(*ast.FuncDecl)
-			if !ok || fd.Body == nil {
-				continue
-			}
-			recv := ""
-			if cfg.typ != "" {
-				recv = recvName(fd, cfg.typ)
-				if recv == "" {
-					continue
-				}
-			}
-			found = true
-			fname := fd.Name.Name
-			// match `recv.field` (struct) or bare `field` identifiers (package-level)
-			fieldOf := func(e ast.Expr) string {
-				if cfg.typ != "" {
-					if se, ok := e.(*ast.SelectorExpr); ok {
-						if id, ok := se.X.(*ast.Ident); ok && id.Name == recv && isField[se.Sel.Name] {
-							return se.Sel.Name
-						}
-					}
-					return ""
-				}
-				if id, ok := e.(*ast.Ident); ok && isField[id.Name] && id.Obj != nil && id.Obj.Kind == ast.Var {
-					if _, isTop := id.Obj.Decl.(*ast.ValueSpec); isTop {
-						return id.Name
-					}
-				}
-				return ""
-			}
-			isMutexCall := func(call *ast.CallExpr) string {
-				se, ok := call.Fun.(*ast.SelectorExpr)
-				if !ok {
-					return ""
-				}
-				var m string
-				if cfg.typ != "" {
-					if inner, ok := se.X.(*ast.SelectorExpr); ok {
-						if id, ok := inner.X.(*ast.Ident); ok && id.Name == recv {
-							m = inner.Sel.Name
-						}
-					}
-				} else if id, ok := se.X.(*ast.Ident); ok {
-					m = id.Name
-				}
-				if m != cfg.mutex {
-					return ""
-				}
-				return se.Sel.Name
-			}
-			lock := ""
-			var accs []access
-			var visitExpr func(e ast.Node, write bool)
-			visitExpr = func(e ast.Node, write bool) {
-				if e == nil {
-					return
-				}
-				ast.Inspect(e, func(n ast.Node) bool {
-					switch v := n.(type) {
-					case *ast.FuncLit:
-						return false // closures handled as separate flows below
-					case *ast.CallExpr:
-						name := exprStr(c, v.Fun)
-						if strings.HasPrefix(name, "atomic.") && len(v.Args) > 0 {
-							if u, ok := v.Args[0].(*ast.UnaryExpr); ok && u.Op == token.AND {
-								if fl := fieldOf(u.X); fl != "" {
-									accs = append(accs, access{fname, fl, !strings.HasPrefix(name, "atomic.Load"), true, lock})
-									for _, a := range v.Args[1:] {
-										visitExpr(a, false)
-									}
-									return false
-								}
-							}
-						}
-						if id, ok := v.Fun.(*ast.Ident); ok && cfg.typ == "" {
-							ci := calls[id.Name]
-							if ci == nil {
-								ci = &callInfo{}
-								calls[id.Name] = ci
-							}
-							if lock == "W" || fname == "init" {
-								ci.locked++
-							} else {
-								ci.unlocked++
-							}
-						}
-					case *ast.SelectorExpr:
-						if fl := fieldOf(v); fl != "" {
-							accs = append(accs, access{fname, fl, write, false, lock})
-							return false
-						}
-					case *ast.Ident:
-						if cfg.typ == "" {
-							if fl := fieldOf(v); fl != "" {
-								accs = append(accs, access{fname, fl, write, false, lock})
-							}
-						}
-					}
-					return true
-				})
-			}
-			var visitStmt func(s ast.Stmt)
-			visitBlock := func(b *ast.BlockStmt) {
-				if b == nil {
-					return
-				}
-				for _, s := range b.List {
-					visitStmt(s)
-				}
-			}
-			visitStmt = func(s ast.Stmt) {
-				switch v := s.(type) {
-				case *ast.ExprStmt:
-					if call, ok := v.X.(*ast.CallExpr); ok {
-						switch isMutexCall(call) {
-						case "Lock":
-							lock = "W"
-							return
-						case "RLock":
-							lock = "R"
-							return
-						case "Unlock", "RUnlock":
-							lock = ""
-							return
-						}
-					}
-					visitExpr(v.X, false)
-				case *ast.DeferStmt:
-					if m := isMutexCall(v.Call); m == "Unlock" || m == "RUnlock" {
-						return // stays held until return
-					}
-					visitExpr(v.Call, false)
-				case *ast.AssignStmt:
-					for _, l := range v.Lhs {
-						// writing through an index (s.x[i] = …) is a write of the field
-						base := l
-						for {
-							if ix, ok := base.(*ast.IndexExpr); ok {
-								base = ix.X
-								continue
-							}
-							break
-						}
-						if fl := fieldOf(base); fl != "" {
-							accs = append(accs, access{fname, fl, true, false, lock})
-							if v.Tok != token.ASSIGN && v.Tok != token.DEFINE {
-								accs = append(accs, access{fname, fl, false, false, lock})
-							}
-						} else {
-							visitExpr(l, false)
-						}
-					}
-					for _, r := range v.Rhs {
-						visitExpr(r, false)
-					}
-				case *ast.IncDecStmt:
-					if fl := fieldOf(v.X); fl != "" {
-						accs = append(accs, access{fname, fl, true, false, lock})
-					} else {
-						visitExpr(v.X, false)
-					}
-				case *ast.BlockStmt:
-					visitBlock(v)
-				case *ast.IfStmt:
-					if v.Init != nil {
-						visitStmt(v.Init)
-					}
-					visitExpr(v.Cond, false)
-					visitBlock(v.Body)
-					if v.Else != nil {
-						visitStmt(v.Else)
-					}
-				case *ast.ForStmt:
-					if v.Init != nil {
-						visitStmt(v.Init)
-					}
-					visitExpr(v.Cond, false)
-					if v.Post != nil {
-						visitStmt(v.Post)
-					}
-					visitBlock(v.Body)
-				case *ast.RangeStmt:
-					visitExpr(v.X, false)
-					visitBlock(v.Body)
-				case *ast.ReturnStmt:
-					for _, r := range v.Results {
-						visitExpr(r, false)
-					}
-				case *ast.SwitchStmt:
-					if v.Init != nil {
-						visitStmt(v.Init)
-					}
-					visitExpr(v.Tag, false)
-					visitBlock(v.Body)
-				case *ast.CaseClause:
-					for _, e := range v.List {
-						visitExpr(e, false)
-					}
-					for _, st := range v.Body {
-						visitStmt(st)
-					}
-				case *ast.DeclStmt, *ast.GoStmt, *ast.SendStmt, *ast.BranchStmt, *ast.LabeledStmt, *ast.SelectStmt:
-					visitExpr(v, false)
-				default:
-					visitExpr(v, false)
-				}
-			}
-			visitBlock(fd.Body)
-			perFn = append(perFn, pending{fname, accs})
-		}
-	}
-	for _, p := range perFn {
-		inherit := ""
-		if ci := calls[p.fn]; ci != nil && ci.locked > 0 && ci.unlocked == 0 {
-			inherit = "W" // every call site holds the exclusive lock (or is in init)
-		}
-		for _, a := range p.acc {
-			if a.lock == "" && inherit != "" {
-				a.lock = inherit
-			}
-			out = append(out, a)
-		}
-	}
-	return out, found
-}
-
-func init() {
-	RegisterGen("Access", func(c *Ctx) string {
-		var sb strings.Builder
-		sb.WriteString("namespace Rare.Gen.Access\n\n")
-		sb.WriteString("structure Acc where\n  fn : String\n  field : String\n  write : Bool\n  atomic : Bool\n  lock : String   -- \"\" none, \"W\" exclusive, \"R\" shared\n  deriving DecidableEq, Repr\n\n")
-		for _, cfg := range []accessCfg{
-			{"batcher", "pkg/extractor/batchers", "Batcher", []string{"sourceCount", "readCount", "errorCount", "activeFiles", "readBytes", "lastRateUpdate", "lastRate", "lastRateBytes"}, "mux"},
-			{"extractor", "pkg/extractor", "Extractor|extractorInstance", []string{"readLines", "matchedLines", "ignoredLines"}, "-"},
-			{"objectPool", "pkg/slicepool", "ObjectPool", []string{"pool"}, "m"},
-			{"logger", "pkg/logger", "", []string{"logger", "logBuffer"}, "mux"},
-		} {
-			accs, ok := c.collectAccesses(cfg)
-			if !ok {
-				sb.WriteString(untranslatable(cfg.lean))
-				continue
-			}
-			fmt.Fprintf(&sb, "/-- accesses to the shared state of `%s` in %s -/\ndef %s : List Acc := [\n", cfg.typ, cfg.dir, cfg.lean)
-			for i, a := range accs {
-				sep := ","
-				if i == len(accs)-1 {
-					sep = ""
-				}
-				fmt.Fprintf(&sb, "  ⟨%s, %s, %v, %v, %s⟩%s\n", leanStr(a.fn), leanStr(a.field), a.write, a.atomic, leanStr(a.lock), sep)
-			}
-			sb.WriteString("]\n\n")
-		}
-		sb.WriteString("end Rare.Gen.Access\n")
-		return sb.String()
-	})
 }
